@@ -362,6 +362,18 @@ def run_check(prop, tier='quick', seed=0, replay=None, budget=None):
             notes.append('forbidden vernacular: ' + '; '.join(bad_vernac))
         if not spec_ok:
             log(out_s[-3000:])
+        coqchk = None
+        if tier == 'thorough' and proofs_ok and not replay:
+            # independent re-check of the compiled theorems and everything they depend on
+            rc_c, out_c = run(['coqchk', '-silent', '-o', '-Q', '.', 'TxVerif', 'TxVerif.Properties.%s' % pid], 1200)
+            summ = out_c[out_c.find('CONTEXT SUMMARY'):] if 'CONTEXT SUMMARY' in out_c else out_c[-1500:]
+            coqchk = {'rc': rc_c, 'summary': ' '.join(summ.split())[:1500]}
+            if rc_c != 0:
+                proofs_ok = False
+                failing_theorem = 'coqchk TxVerif.Properties.%s' % pid
+                notes.append('coqchk failed: ' + coqchk['summary'][-300:])
+            elif '* Axioms: <none>' not in summ:
+                notes.append('coqchk axiom report: ' + coqchk['summary'])
 
     if not spec_ok:
         payload = {'property': pid, 'stage': 'spec build', 'log': out_s[-3000:],
@@ -532,7 +544,7 @@ def run_check(prop, tier='quick', seed=0, replay=None, budget=None):
             'corpus_cases': n_corpus,
             'exhaustive': bool(exhaustive_desc), 'exhaustive_part': exhaustive_desc,
             'proofs_built': proofs_ok, 'model_built': model_ok, 'gen_failed': gen_failed,
-            'known_findings_seen': sorted(known_hits), 'notes': notes,
+            'known_findings_seen': sorted(known_hits), 'notes': notes, 'coqchk': coqchk,
             'wall_impl_s': round(t_impl, 2),
         },
         'assumptions': prop.assumptions,
